@@ -93,6 +93,14 @@ def dispatch (f : String) (j : Json) : Option Json :=
         | none => none
       let m := update realCfg.defaults dkv
       return Json.arr (ks.map (fun k => ofNats [k, phaseView realCfg m top given k])).toArray
+  | "C20.trivia" => some <| Id.run do
+      let some ix := (get j "toks").bind asNats | return Json.mkObj [("err", "bad toks")]
+      let ts := ix.map realTrivTok
+      let tup := (getBool j "tuple").getD true
+      match tup, ts with
+      | false, [t] => return Json.bool (checkTrivia (.one t))
+      | false, _ => return Json.mkObj [("err", "one token expected")]
+      | true, _ => return Json.bool (checkTrivia (.tup ts))
   | "C20.check" => some <| Id.run do
       let some kvs := (get j "kvs").bind parseKvs | return Json.mkObj [("err", "bad kvs")]
       let all := (getBool j "all").getD true
